@@ -51,7 +51,7 @@ FaultOrder == << "deprecated_memory", "no_general", "no_instructions", "min_vers
                  "mnemonic_keyword", "mnemonic_keyword_upper", "missing_bytecode", "count_mismatch", "unknown_operand_set",
                  "count_zero_with_list", "count_zero_unknown_set", "count_smaller_than_list", "variant_count_mismatch", "variant_count_zero_with_list",
                  "variant_unknown_operand_set", "specific_undeclared_register", "specific_inverted_range", "specific_unknown_operand_type",
-                 "macro_keyword", "macro_same_as_instruction", "macro_same_as_instruction_other_case", "zone_inverted", "zone_beyond_width", "zone_end_is_space_size",
+                 "macro_count_mismatch", "macro_count_smaller_than_list", "macro_unknown_operand_set", "macro_keyword", "macro_same_as_instruction", "macro_same_as_instruction_other_case", "zone_inverted", "zone_beyond_width", "zone_end_is_space_size",
                  "global_beyond_width" >>
 Faults == {FaultOrder[i] : i \in 1..Len(FaultOrder)}
 
